@@ -821,3 +821,560 @@ Section Spec.
       destruct (opt_nat_eqb (attach f l (ae_lparent e)) K); reflexivity.
   Qed.
 End Spec.
+
+(** ** The captured spans by position *)
+Lemma nth_error_indexed_from {A} (l : list A) : forall b j,
+  nth_error (combine (seq b (List.length l)) l) j = option_map (fun x => ((b + j)%nat, x)) (nth_error l j).
+Proof.
+  induction l as [|a l IH]; intros b j; cbn.
+  - destruct j; reflexivity.
+  - destruct j as [|j]; cbn; [rewrite Nat.add_0_r; reflexivity|].
+    rewrite IH. rewrite Nat.add_succ_r. reflexivity.
+Qed.
+
+Lemma nth_error_indexed {A} (l : list A) j :
+  nth_error (indexed l) j = option_map (fun x => (j, x)) (nth_error l j).
+Proof. unfold indexed. rewrite nth_error_indexed_from. reflexivity. Qed.
+
+Lemma indexed_app {A} (l : list A) x : indexed (l ++ [x]) = indexed l ++ [(List.length l, x)].
+Proof.
+  apply list_ext. intros j. rewrite nth_error_indexed, !nth_error_snoc', nth_error_indexed.
+  assert (E : List.length (indexed l) = List.length l).
+  { unfold indexed. rewrite combine_length, seq_length. lia. }
+  rewrite E. destruct (Nat.ltb j (List.length l)); [reflexivity|].
+  destruct (Nat.eqb_spec j (List.length l)) as [->|]; reflexivity.
+Qed.
+
+Lemma indexed_length {A} (l : list A) : List.length (indexed l) = List.length l.
+Proof. unfold indexed. rewrite combine_length, seq_length. lia. Qed.
+
+Lemma map_snd_indexed {A} (l : list A) : map snd (indexed l) = l.
+Proof.
+  apply list_ext. intros j. rewrite nth_error_map, nth_error_indexed. destruct (nth_error l j); reflexivity.
+Qed.
+
+Definition caps (f : cs_data -> bool) (l : list aspan) : list (nat * aspan) :=
+  List.filter (fun ks => f (as_meta (snd ks))) (indexed l).
+
+Lemma caps_app f l x :
+  caps f (l ++ [x]) = caps f l ++ (if f (as_meta x) then [(List.length l, x)] else []).
+Proof. unfold caps. rewrite indexed_app, filter_app. cbn. destruct (f (as_meta x)); reflexivity. Qed.
+
+Lemma filter_map_snd {A B} (P : B -> bool) (L : list (A * B)) :
+  List.filter P (map snd L) = map snd (List.filter (fun ab => P (snd ab)) L).
+Proof. induction L as [|[a b] L IH]; cbn; [reflexivity|]. destruct (P b); cbn; congruence. Qed.
+
+Lemma caps_length f l : N.of_nat (List.length (caps f l)) = cap_rank f l (List.length l).
+Proof.
+  unfold cap_rank, caps. rewrite firstn_all. f_equal.
+  rewrite <- (map_snd_indexed l) at 2.
+  rewrite (filter_map_snd (fun s => f (as_meta s))), map_length. reflexivity.
+Qed.
+
+Lemma caps_nth_inv f l : forall j k s,
+  nth_error (caps f l) j = Some (k, s) ->
+  nth_error l k = Some s /\ f (as_meta s) = true /\ cap_rank f l k = N.of_nat j.
+Proof.
+  induction l as [|x l IH] using rev_ind; intros j k s H.
+  - destruct j; discriminate.
+  - rewrite caps_app in H. pose proof (caps_length f l) as Hlen.
+    destruct (Nat.ltb_spec j (List.length (caps f l))) as [Hj|Hj].
+    + rewrite nth_error_app1 in H by exact Hj. destruct (IH _ _ _ H) as (A & B & C).
+      assert (k < List.length l)%nat by (apply nth_error_Some; congruence).
+      split; [rewrite nth_error_app1 by lia; exact A|]. split; [exact B|].
+      rewrite cap_rank_app by lia. exact C.
+    + rewrite nth_error_app2 in H by exact Hj. destruct (f (as_meta x)) eqn:Ef.
+      * destruct (j - List.length (caps f l))%nat as [|d] eqn:Ed; [|destruct d; discriminate].
+        cbn in H. injection H as <- <-. split; [rewrite nth_error_app2 by lia; rewrite Nat.sub_diag; reflexivity|].
+        split; [exact Ef|]. rewrite cap_rank_app by lia. rewrite <- Hlen. f_equal. lia.
+      * destruct (j - List.length (caps f l))%nat; discriminate.
+Qed.
+
+Lemma caps_nth_rank f l : forall k s,
+  nth_error l k = Some s -> f (as_meta s) = true ->
+  nth_error (caps f l) (N.to_nat (cap_rank f l k)) = Some (k, s).
+Proof.
+  induction l as [|x l IH] using rev_ind; intros k s H Hf.
+  - destruct k; discriminate.
+  - rewrite caps_app. pose proof (caps_length f l) as Hlen. rewrite nth_error_snoc' in H.
+    destruct (Nat.ltb_spec k (List.length l)) as [Hk|Hk].
+    + rewrite cap_rank_app by lia. rewrite nth_error_app1; [apply IH; assumption|].
+      assert (Hc : captured f l k = true) by (unfold captured; rewrite H; exact Hf).
+      pose proof (cap_rank_lt f l k (List.length l) Hc Hk). lia.
+    + destruct (Nat.eqb_spec k (List.length l)) as [->|]; [|discriminate]. injection H as ->.
+      rewrite Hf, cap_rank_app by lia. rewrite nth_error_app2 by lia.
+      replace (N.to_nat (cap_rank f l (List.length l)) - List.length (caps f l))%nat with O by lia.
+      reflexivity.
+Qed.
+
+(** ** [build], componentwise *)
+Lemma build_get f closed a i :
+  get_span (build f closed a) i =
+  option_map (build_span f closed a) (nth_error (caps f (a_spans a)) (N.to_nat i)).
+Proof. unfold get_span, build. cbn [st_spans]. rewrite nth_error_map. reflexivity. Qed.
+
+Lemma build_nspans f closed a : nspans (build f closed a) = cap_rank f (a_spans a) (List.length (a_spans a)).
+Proof. unfold nspans, build. cbn [st_spans]. rewrite map_length. apply caps_length. Qed.
+
+Lemma build_nevents f closed a : nevents (build f closed a) = N.of_nat (List.length (a_events a)).
+Proof. unfold nevents, build. cbn [st_events]. rewrite map_length, indexed_length. reflexivity. Qed.
+
+Lemma storage_ext (a b : cstorage) :
+  (forall i, get_span a i = get_span b i) -> st_events a = st_events b ->
+  st_root_span_ids a = st_root_span_ids b -> st_root_event_ids a = st_root_event_ids b -> a = b.
+Proof.
+  destruct a as [s1 e1 r1 q1], b as [s2 e2 r2 q2]. cbn. intros H -> -> ->. f_equal.
+  apply list_ext. intros j. specialize (H (N.of_nat j)). unfold get_span in H. cbn in H.
+  rewrite Nat2N.id in H. exact H.
+Qed.
+
+(** the position of a captured span *)
+Lemma build_get_rank f closed a k s :
+  nth_error (a_spans a) k = Some s -> f (as_meta s) = true ->
+  get_span (build f closed a) (cap_rank f (a_spans a) k) = Some (build_span f closed a (k, s)).
+Proof. intros H Hf. rewrite build_get, (caps_nth_rank f _ _ _ H Hf). reflexivity. Qed.
+
+Lemma cap_rank_lt_nspans f closed a k :
+  captured f (a_spans a) k = true -> cap_rank f (a_spans a) k < nspans (build f closed a).
+Proof. intros H. rewrite build_nspans. apply cap_rank_lt; [exact H | apply captured_lt in H; exact H]. Qed.
+
+(** ** Changing one span of the forest without touching metadata or logical parents *)
+Definition keeps_skel (g : aspan -> aspan) : Prop :=
+  forall s, as_meta (g s) = as_meta s /\ as_lparent (g s) = as_lparent s.
+
+Lemma upd_span_nth l k g j :
+  nth_error (upd_span l k g) j = if Nat.eqb j k then option_map g (nth_error l j) else nth_error l j.
+Proof.
+  unfold upd_span. destruct (nth_error l k) as [s|] eqn:E.
+  - rewrite set_nth_nth. destruct (Nat.eqb_spec j k) as [->|]; [|reflexivity].
+    rewrite E. assert (k < List.length l)%nat by (apply nth_error_Some; congruence).
+    destruct (Nat.ltb_spec k (List.length l)); [reflexivity | lia].
+  - destruct (Nat.eqb_spec j k) as [->|]; [|reflexivity]. rewrite E. reflexivity.
+Qed.
+
+Lemma upd_span_length l k g : List.length (upd_span l k g) = List.length l.
+Proof. unfold upd_span. destruct (nth_error l k); [apply set_nth_length | reflexivity]. Qed.
+
+Lemma upd_span_skel l k g : keeps_skel g -> skel (upd_span l k g) = skel l.
+Proof.
+  intros Hg. apply list_ext. intros j. unfold skel. rewrite !nth_error_map, upd_span_nth.
+  destruct (Nat.eqb j k); [|reflexivity]. destruct (nth_error l j) as [s|]; [|reflexivity].
+  cbn. destruct (Hg s) as [-> ->]. reflexivity.
+Qed.
+
+Lemma filter_map_comm {A} (P : A -> bool) (h : A -> A) (L : list A) :
+  (forall x, P (h x) = P x) -> List.filter P (map h L) = map h (List.filter P L).
+Proof.
+  intros H. induction L as [|x L IH]; cbn; [reflexivity|]. rewrite H. destruct (P x); cbn; congruence.
+Qed.
+
+Definition upd_pair (k : nat) (g : aspan -> aspan) (ks : nat * aspan) : nat * aspan :=
+  if Nat.eqb (fst ks) k then (fst ks, g (snd ks)) else ks.
+
+Lemma caps_upd f l k g : keeps_skel g -> caps f (upd_span l k g) = map (upd_pair k g) (caps f l).
+Proof.
+  intros Hg. unfold caps.
+  assert (E : indexed (upd_span l k g) = map (upd_pair k g) (indexed l)).
+  { apply list_ext. intros j. rewrite nth_error_map, !nth_error_indexed, upd_span_nth.
+    unfold upd_pair. destruct (nth_error l j) as [s|]; cbn; [|destruct (Nat.eqb j k); reflexivity].
+    destruct (Nat.eqb j k); reflexivity. }
+  rewrite E. apply filter_map_comm. intros [j s]. unfold upd_pair. cbn.
+  destruct (Nat.eqb j k); cbn; [|reflexivity]. destruct (Hg s) as [-> _]. reflexivity.
+Qed.
+
+Section BuildFacts.
+  Variable f : cs_data -> bool.
+
+  Lemma build_span_skel closed a a' ks :
+    skel (a_spans a') = skel (a_spans a) -> a_events a' = a_events a ->
+    build_span f closed a' ks = build_span f closed a ks.
+  Proof.
+    intros Hs He. unfold build_span. rewrite He.
+    rewrite (cap_rank_skel f _ _ (fst ks) Hs), (span_attach_skel f _ _ (fst ks) Hs),
+      (attached_spans_skel f _ _ (Some (fst ks)) Hs), (attached_events_skel f _ _ _ (Some (fst ks)) Hs).
+    f_equal.
+    - destruct (span_attach f (a_spans a) (fst ks)); cbn; [|reflexivity]. rewrite (cap_rank_skel f _ _ _ Hs). reflexivity.
+    - apply map_ext. intros c. apply cap_rank_skel. exact Hs.
+    - apply map_ext. intros c. apply cap_rank_skel. exact Hs.
+  Qed.
+
+  Lemma build_events_skel a a' :
+    skel (a_spans a') = skel (a_spans a) -> a_events a' = a_events a ->
+    map (build_event f a') (indexed (a_events a')) = map (build_event f a) (indexed (a_events a)).
+  Proof.
+    intros Hs He. rewrite He. apply map_ext. intros ie. unfold build_event.
+    rewrite (attach_skel f _ _ _ Hs). destruct (attach f (a_spans a) (ae_lparent (snd ie))); cbn; [|reflexivity].
+    rewrite (cap_rank_skel f _ _ _ Hs). reflexivity.
+  Qed.
+
+  Lemma build_roots_skel a a' :
+    skel (a_spans a') = skel (a_spans a) ->
+    map (cap_rank f (a_spans a')) (attached_spans f (a_spans a') None)
+    = map (cap_rank f (a_spans a)) (attached_spans f (a_spans a) None).
+  Proof.
+    intros Hs. rewrite (attached_spans_skel f _ _ None Hs). apply map_ext. intros c. apply cap_rank_skel. exact Hs.
+  Qed.
+
+  Lemma caps_in_captured l k s : In (k, s) (caps f l) -> nth_error l k = Some s /\ f (as_meta s) = true.
+  Proof.
+    intros H. apply In_nth_error in H as [j Hj]. apply caps_nth_inv in Hj as (A & B & _). auto.
+  Qed.
+
+  Lemma build_closed_ext closed closed' a :
+    (forall k, captured f (a_spans a) k = true -> closed k = closed' k) ->
+    build f closed a = build f closed' a.
+  Proof.
+    intros H. unfold build. f_equal. apply map_ext_in. intros [k s] Hin.
+    apply caps_in_captured in Hin as [A B]. unfold build_span. cbn [fst snd].
+    rewrite (H k); [reflexivity|]. unfold captured. rewrite A. exact B.
+  Qed.
+
+  (** one captured span's record changes by [T], everything else stays *)
+  Lemma build_point_update closed a a' k0 s0 g (T : span_rec span_payload -> span_rec span_payload) st' :
+    nth_error (a_spans a) k0 = Some s0 -> f (as_meta s0) = true -> keeps_skel g ->
+    a_spans a' = upd_span (a_spans a) k0 g -> a_events a' = a_events a ->
+    build_span f closed a (k0, g s0) = T (build_span f closed a (k0, s0)) ->
+    st_events st' = st_events (build f closed a) ->
+    st_root_span_ids st' = st_root_span_ids (build f closed a) ->
+    st_root_event_ids st' = st_root_event_ids (build f closed a) ->
+    (forall i, get_span st' i =
+               option_map (fun r => if i =? cap_rank f (a_spans a) k0 then T r else r)
+                          (get_span (build f closed a) i)) ->
+    st' = build f closed a'.
+  Proof.
+    intros Hk0 Hf Hg Hsp Hev HT He Hr Hre Hget.
+    assert (Hs : skel (a_spans a') = skel (a_spans a)) by (rewrite Hsp; apply upd_span_skel; exact Hg).
+    apply storage_ext.
+    - intros i. rewrite Hget, !build_get, Hsp, (caps_upd f _ _ _ Hg), nth_error_map.
+      destruct (nth_error (caps f (a_spans a)) (N.to_nat i)) as [[k s]|] eqn:E; [|reflexivity].
+      cbn [option_map]. apply caps_nth_inv in E as (A & B & C). rewrite N2Nat.id in C. f_equal.
+      unfold upd_pair. cbn [fst snd]. destruct (Nat.eqb_spec k k0) as [->|Hne].
+      + rewrite Hk0 in A. injection A as <-. rewrite C, N.eqb_refl.
+        rewrite (build_span_skel closed a a' _ Hs Hev). symmetry. exact HT.
+      + destruct (N.eqb_spec i (cap_rank f (a_spans a) k0)) as [Ei|_].
+        * exfalso. apply Hne. apply (cap_rank_inj f (a_spans a)); [| |congruence].
+          -- unfold captured. rewrite A. exact B.
+          -- unfold captured. rewrite Hk0. exact Hf.
+        * symmetry. apply build_span_skel; assumption.
+    - rewrite He. unfold build. cbn [st_events]. symmetry. apply build_events_skel; assumption.
+    - rewrite Hr. unfold build. cbn [st_root_span_ids]. symmetry. apply build_roots_skel. exact Hs.
+    - rewrite Hre. unfold build. cbn [st_root_event_ids]. rewrite Hev.
+      rewrite (attached_events_skel f _ _ _ None Hs). reflexivity.
+  Qed.
+
+  (** a span the filter disabled does not show *)
+  Lemma build_update_uncaptured closed a a' k0 s0 g :
+    nth_error (a_spans a) k0 = Some s0 -> f (as_meta s0) = false -> keeps_skel g ->
+    a_spans a' = upd_span (a_spans a) k0 g -> a_events a' = a_events a ->
+    build f closed a' = build f closed a.
+  Proof.
+    intros Hk0 Hf Hg Hsp Hev.
+    assert (Hs : skel (a_spans a') = skel (a_spans a)) by (rewrite Hsp; apply upd_span_skel; exact Hg).
+    unfold build. f_equal.
+    - rewrite Hsp. fold (caps f (upd_span (a_spans a) k0 g)). fold (caps f (a_spans a)).
+      rewrite (caps_upd f _ _ _ Hg), map_map. apply map_ext_in. intros [k s] Hin.
+      apply caps_in_captured in Hin as [A B]. unfold upd_pair. cbn [fst snd].
+      destruct (Nat.eqb_spec k k0) as [->|_]; [congruence|]. apply build_span_skel; assumption.
+    - apply build_events_skel; assumption.
+    - apply build_roots_skel. exact Hs.
+    - rewrite Hev, (attached_events_skel f _ _ _ None Hs). reflexivity.
+  Qed.
+End BuildFacts.
+
+(** ** A new span *)
+Definition fol_bounded (l : list aspan) : Prop :=
+  forall k s j, nth_error l k = Some s -> In j (as_follows s) -> (j < List.length l)%nat.
+
+Lemma filter_nil {A} (P : A -> bool) (l : list A) : (forall x, In x l -> P x = false) -> List.filter P l = [].
+Proof.
+  induction l as [|a l IH]; intros H; cbn; [reflexivity|].
+  rewrite (H a (or_introl eq_refl)). apply IH. intros x Hx. apply H. right. exact Hx.
+Qed.
+
+Section NewSpan.
+  Variable f : cs_data -> bool.
+  Variables a a' : astate.
+  Variable x : aspan.
+  Variables closed closed' : nat -> bool.
+  Let l := a_spans a.
+  Let n := List.length (a_spans a).
+  Hypothesis Hplt : plt l.
+  Hypothesis Hevb : evs_bounded l (a_events a).
+  Hypothesis Hfol : fol_bounded l.
+  Hypothesis Hx : forall p, as_lparent x = Some p -> (p < n)%nat.
+  Hypothesis Hsp : a_spans a' = l ++ [x].
+  Hypothesis Hev : a_events a' = a_events a.
+  Hypothesis Hclosed : forall k, (k < n)%nat -> closed' k = closed k.
+
+  Let lp := as_lparent x.
+  Let att := attach f l lp.
+  Ltac ulia := unfold n, l in *; lia.
+
+  Lemma ns_rank k : (k <= n)%nat -> cap_rank f (a_spans a') k = cap_rank f l k.
+  Proof. intros H. rewrite Hsp. apply cap_rank_app. exact H. Qed.
+
+  Lemma ns_att_lt p : att = Some p -> (p < n)%nat /\ captured f l p = true.
+  Proof. intros H. apply nearest_cap_some in H as [A B]. split; [exact B | exact A]. Qed.
+
+  Lemma ns_opt_rank (o : option nat) :
+    (forall p, o = Some p -> (p < n)%nat) ->
+    option_map (cap_rank f (a_spans a')) o = option_map (cap_rank f l) o.
+  Proof. intros H. destruct o as [p|]; cbn; [|reflexivity]. rewrite ns_rank; [reflexivity|]. specialize (H p eq_refl). ulia. Qed.
+
+  Lemma ns_attached_none_above K :
+    (forall k, K = Some k -> (n <= k)%nat) -> K <> None -> attached_spans f l K = [].
+  Proof.
+    intros HK Hnn. unfold attached_spans. apply filter_nil. intros c Hc. apply in_seq in Hc.
+    destruct K as [k|]; [|congruence]. specialize (HK k eq_refl).
+    destruct (span_attach f l c) as [p|] eqn:E; cbn; [|apply andb_false_r].
+    apply span_attach_lt in E; [|exact Hplt]. destruct (Nat.eqb_spec p k); [ulia | apply andb_false_r].
+  Qed.
+
+  Lemma ns_events_none_above k : (n <= k)%nat -> attached_events f l (a_events a) (Some k) = [].
+  Proof.
+    intros Hk. unfold attached_events. apply filter_nil. intros i Hi. unfold event_attach.
+    destruct (nth_error (a_events a) i) as [e|]; [|reflexivity].
+    destruct (attach f l (ae_lparent e)) as [p|] eqn:E; [|reflexivity]. cbn.
+    apply nearest_cap_some in E as [_ E]. fold n in E. destruct (Nat.eqb_spec p k); [ulia | reflexivity].
+  Qed.
+
+  Lemma ns_map_rank (ks : list nat) :
+    (forall c, In c ks -> (c < n)%nat) -> map (cap_rank f (a_spans a')) ks = map (cap_rank f l) ks.
+  Proof. intros H. apply map_ext_in. intros c Hc. apply ns_rank. specialize (H c Hc). ulia. Qed.
+
+  Lemma ns_attached_lt K c : In c (attached_spans f l K) -> (c < n)%nat.
+  Proof. unfold attached_spans. intros H. apply filter_In in H as [H _]. apply in_seq in H. fold n in H. ulia. Qed.
+
+  (** an old span: one more child if the new span is captured and attaches to it *)
+  Lemma ns_build_span_old k s :
+    nth_error l k = Some s ->
+    build_span f closed' a' (k, s) =
+    (fun r => if f (as_meta x) && opt_nat_eqb att (Some k) then add_child r (cap_rank f l n) else r)
+      (build_span f closed a (k, s)).
+  Proof.
+    intros Hk. assert (Hkn : (k < n)%nat) by (apply nth_error_Some; unfold l in Hk; congruence).
+    unfold build_span. cbn [fst snd]. rewrite Hev, (Hclosed k Hkn), (ns_rank k) by ulia.
+    rewrite Hsp, (span_attach_app f l x k Hplt Hkn).
+    rewrite (attached_spans_app f l x (Some k) Hplt Hx), (attached_events_app_span f l x _ (Some k) Hplt Hevb).
+    rewrite <- Hsp. rewrite ns_opt_rank.
+    2:{ intros p Hp. apply span_attach_lt in Hp; [ulia | exact Hplt]. }
+    rewrite map_app, (ns_map_rank (attached_spans f l (Some k))) by (apply ns_attached_lt).
+    rewrite (ns_map_rank (as_follows s)) by (intros c Hc; eapply Hfol; eauto).
+    fold lp. fold att. fold n.
+    destruct (f (as_meta x) && opt_nat_eqb att (Some k)); cbn [map].
+    - unfold add_child. cbn. rewrite (ns_rank (List.length l)) by ulia. reflexivity.
+    - rewrite app_nil_r. reflexivity.
+  Qed.
+
+  Lemma ns_build_span_new :
+    build_span f closed' a' (n, x) =
+    mk_span (mk_spl (as_meta x) (as_values x) (as_entered x) (as_exited x) (closed' n))
+            (cap_rank f l n) (option_map (cap_rank f l) att) [] []
+            (map (cap_rank f (a_spans a')) (as_follows x)).
+  Proof.
+    unfold build_span. cbn [fst snd]. change n with (List.length l).
+    rewrite Hev, (ns_rank (List.length l)) by ulia.
+    rewrite Hsp, (span_attach_new f l x Hplt Hx).
+    rewrite (attached_spans_app f l x (Some (List.length l)) Hplt Hx),
+      (attached_events_app_span f l x _ (Some (List.length l)) Hplt Hevb).
+    rewrite <- Hsp. fold lp. fold att.
+    rewrite ns_opt_rank by (intros p Hp; apply ns_att_lt in Hp; tauto).
+    rewrite (ns_attached_none_above (Some (List.length l)))
+      by (try (intros k E; injection E as <-; ulia); discriminate).
+    rewrite (ns_events_none_above (List.length l)) by ulia.
+    replace (f (as_meta x) && opt_nat_eqb att (Some (List.length l))) with false; [reflexivity|].
+    destruct att as [p|] eqn:E; cbn; [|symmetry; apply andb_false_r].
+    apply ns_att_lt in E as [E _]. destruct (Nat.eqb_spec p (List.length l)); [ulia|]. symmetry. apply andb_false_r.
+  Qed.
+
+  Lemma ns_events :
+    map (build_event f a') (indexed (a_events a')) = map (build_event f a) (indexed (a_events a)).
+  Proof.
+    rewrite Hev. apply map_ext_in. intros [i e] Hin. unfold build_event. cbn [fst snd].
+    apply In_nth_error in Hin as [j Hj]. rewrite nth_error_indexed in Hj.
+    destruct (nth_error (a_events a) j) as [e'|] eqn:Ee; [|discriminate]. cbn in Hj. injection Hj as <- <-.
+    rewrite Hsp, (attach_app f l x _ Hplt) by (intros p Hp; eapply Hevb; eauto). rewrite <- Hsp.
+    rewrite ns_opt_rank; [reflexivity|]. intros p Hp. apply nearest_cap_some in Hp. tauto.
+  Qed.
+
+  Lemma ns_roots :
+    map (cap_rank f (a_spans a')) (attached_spans f (a_spans a') None) =
+    map (cap_rank f l) (attached_spans f l None) ++
+    (if f (as_meta x) && opt_nat_eqb att None then [cap_rank f l n] else []).
+  Proof.
+    rewrite Hsp, (attached_spans_app f l x None Hplt Hx), <- Hsp, map_app.
+    rewrite (ns_map_rank (attached_spans f l None)) by (apply ns_attached_lt).
+    fold lp. fold att. destruct (f (as_meta x) && opt_nat_eqb att None); cbn [map]; [|reflexivity].
+    rewrite (ns_rank (List.length l)) by ulia. reflexivity.
+  Qed.
+
+  Lemma ns_root_events :
+    attached_events f (a_spans a') (a_events a') None = attached_events f l (a_events a) None.
+  Proof. rewrite Hev, Hsp. apply attached_events_app_span; assumption. Qed.
+
+  (** the filter disabled the new span: nothing shows *)
+  Lemma build_new_uncaptured : f (as_meta x) = false -> build f closed' a' = build f closed a.
+  Proof.
+    intros Hf. unfold build. f_equal.
+    - rewrite Hsp. fold (caps f (l ++ [x])). rewrite caps_app, Hf, app_nil_r.
+      apply map_ext_in. intros [k s] Hin. apply caps_in_captured in Hin as [A _].
+      rewrite (ns_build_span_old k s A), Hf. reflexivity.
+    - apply ns_events.
+    - rewrite ns_roots, Hf. cbn. apply app_nil_r.
+    - f_equal. apply ns_root_events.
+  Qed.
+
+  (** the filter enabled it: [push_span] *)
+  Lemma build_new_captured :
+    f (as_meta x) = true -> as_entered x = 0 -> as_exited x = 0 -> as_follows x = [] -> closed' n = false ->
+    push_span (build f closed a) (mk_spl (as_meta x) (as_values x) 0 0 false) (option_map (cap_rank f l) att)
+    = Done (build f closed' a', cap_rank f l n).
+  Proof.
+    intros Hf He Hx' Hfo Hcl. change n with (List.length l) in *.
+    assert (Hok : opt_id_ok (build f closed a) (option_map (cap_rank f l) att) = true).
+    { destruct att as [p|] eqn:E; cbn; [|reflexivity]. apply ns_att_lt in E as [_ E].
+      unfold id_ok. apply N.ltb_lt. apply cap_rank_lt_nspans. exact E. }
+    destruct (push_span_effect _ (mk_spl (as_meta x) (as_values x) 0 0 false) _ Hok)
+      as (st' & Ep & Eev & Ere & Ero & _ & Eget).
+    rewrite Ep, build_nspans. fold l. f_equal. f_equal.
+    rewrite build_nspans in Ero, Eget. fold l in Ero, Eget.
+    apply storage_ext.
+    - intros i. rewrite Eget, !build_get, Hsp, caps_app, Hf. fold l.
+      pose proof (caps_length f l) as Hlen.
+      destruct (N.eqb_spec i (cap_rank f l (List.length l))) as [->|Hne].
+      + rewrite <- Hlen, Nat2N.id, nth_error_app2 by ulia. rewrite Nat.sub_diag. cbn [nth_error option_map].
+        pose proof ns_build_span_new as Hnew. change n with (List.length l) in Hnew.
+        rewrite Hnew, He, Hx', Hfo, Hcl, Hlen. reflexivity.
+      + destruct (Nat.ltb_spec (N.to_nat i) (List.length (caps f l))) as [Hi|Hi].
+        * rewrite nth_error_app1 by exact Hi.
+          destruct (nth_error (caps f l) (N.to_nat i)) as [[k s]|] eqn:E; [|reflexivity].
+          cbn [option_map]. apply caps_nth_inv in E as (A & B & C). rewrite N2Nat.id in C. f_equal.
+          rewrite (ns_build_span_old k s A), Hf. cbn [andb]. unfold child_added.
+          replace (option_eqb N.eqb (option_map (cap_rank f l) att) (Some i)) with (opt_nat_eqb att (Some k));
+            [reflexivity|].
+          destruct att as [p|] eqn:Ea; cbn; [|reflexivity]. apply ns_att_lt in Ea as [_ Ea].
+          subst i. destruct (Nat.eqb_spec p k) as [->|Hpk]; [symmetry; apply N.eqb_refl|].
+          symmetry. apply N.eqb_neq. intros Er. apply Hpk. apply (cap_rank_inj f l); auto.
+          unfold captured. rewrite A. exact B.
+        * rewrite nth_error_app2 by exact Hi.
+          assert (E1 : nth_error (caps f l) (N.to_nat i) = None) by (apply nth_error_None; exact Hi).
+          rewrite E1. cbn [option_map].
+          destruct (N.to_nat i - List.length (caps f l))%nat as [|d] eqn:Ed; [ulia|]. destruct d; reflexivity.
+    - rewrite Eev. unfold build. cbn [st_events]. symmetry. apply ns_events.
+    - rewrite Ero. unfold build. cbn [st_root_span_ids]. rewrite ns_roots, Hf. cbn [andb]. f_equal.
+      destruct att; reflexivity.
+    - rewrite Ere. unfold build. cbn [st_root_event_ids]. rewrite ns_root_events. reflexivity.
+  Qed.
+End NewSpan.
+
+(** ** Events, payload updates, follows-from edges, closing *)
+Section BuildOps.
+  Variable f : cs_data -> bool.
+
+  Lemma build_new_event closed a a' e :
+    a_spans a' = a_spans a -> a_events a' = a_events a ++ [e] ->
+    push_event (build f closed a) (mk_epl (ae_meta e) (ae_values e))
+               (option_map (cap_rank f (a_spans a)) (attach f (a_spans a) (ae_lparent e)))
+    = Done (build f closed a', N.of_nat (List.length (a_events a))).
+  Proof.
+    intros Hsp Hev. set (l := a_spans a). set (att := attach f l (ae_lparent e)).
+    assert (Hok : opt_id_ok (build f closed a) (option_map (cap_rank f l) att) = true).
+    { destruct att as [p|] eqn:E; cbn; [|reflexivity]. apply nearest_cap_some in E as [E _].
+      unfold id_ok. apply N.ltb_lt. apply cap_rank_lt_nspans. exact E. }
+    destruct (push_event_effect _ (mk_epl (ae_meta e) (ae_values e)) _ Hok)
+      as (st' & Ep & Eev & Ero & Ere & _ & Eget).
+    rewrite Ep, build_nevents. f_equal. f_equal. rewrite build_nevents in Eev, Ere, Eget.
+    assert (Hsp_b : forall ks, build_span f closed a' ks =
+              (fun r => if opt_nat_eqb att (Some (fst ks)) then add_event r (N.of_nat (List.length (a_events a))) else r)
+                (build_span f closed a ks)).
+    { intros [k s]. unfold build_span. cbn [fst snd]. rewrite Hsp, Hev, attached_events_snoc. fold l. fold att.
+      destruct (opt_nat_eqb att (Some k)); [|rewrite app_nil_r; reflexivity].
+      unfold add_event. cbn. rewrite map_app. reflexivity. }
+    apply storage_ext.
+    - intros i. rewrite Eget, !build_get, Hsp. fold l.
+      destruct (nth_error (caps f l) (N.to_nat i)) as [[k s]|] eqn:E; [|reflexivity].
+      cbn [option_map]. apply caps_nth_inv in E as (A & B & C). rewrite N2Nat.id in C. f_equal.
+      rewrite Hsp_b. cbn [fst]. unfold event_added.
+      replace (option_eqb N.eqb (option_map (cap_rank f l) att) (Some i)) with (opt_nat_eqb att (Some k));
+        [reflexivity|].
+      destruct att as [p|] eqn:Ea; cbn; [|reflexivity]. apply nearest_cap_some in Ea as [Ea _].
+      subst i. destruct (Nat.eqb_spec p k) as [->|Hpk]; [symmetry; apply N.eqb_refl|].
+      symmetry. apply N.eqb_neq. intros Er. apply Hpk. apply (cap_rank_inj f l); auto.
+      unfold captured. rewrite A. exact B.
+    - rewrite Eev. unfold build. cbn [st_events]. rewrite Hev, indexed_app, map_app. f_equal.
+      + apply map_ext. intros ie. unfold build_event. rewrite Hsp. reflexivity.
+      + cbn [map]. unfold build_event. cbn [fst snd]. rewrite Hsp. reflexivity.
+    - rewrite Ero. unfold build. cbn [st_root_span_ids]. rewrite Hsp. reflexivity.
+    - rewrite Ere. unfold build. cbn [st_root_event_ids]. rewrite Hsp, Hev, attached_events_snoc, map_app.
+      fold l. fold att. f_equal. destruct att; reflexivity.
+  Qed.
+
+  Lemma build_new_event_uncaptured closed a a' :
+    a_spans a' = a_spans a -> a_events a' = a_events a -> build f closed a' = build f closed a.
+  Proof.
+    intros Hsp Hev. unfold build, build_span, build_event. rewrite Hsp, Hev. reflexivity.
+  Qed.
+
+  Lemma build_payload_update closed a a' k0 s0 g G :
+    nth_error (a_spans a) k0 = Some s0 -> f (as_meta s0) = true -> keeps_skel g ->
+    as_follows (g s0) = as_follows s0 ->
+    (forall c, mk_spl (as_meta (g s0)) (as_values (g s0)) (as_entered (g s0)) (as_exited (g s0)) c
+               = G (mk_spl (as_meta s0) (as_values s0) (as_entered s0) (as_exited s0) c)) ->
+    a_spans a' = upd_span (a_spans a) k0 g -> a_events a' = a_events a ->
+    on_span_update (build f closed a) (cap_rank f (a_spans a) k0) G = Done (build f closed a').
+  Proof.
+    intros Hk0 Hf Hg Hfo HG Hsp Hev.
+    assert (Hok : id_ok (build f closed a) (cap_rank f (a_spans a) k0) = true).
+    { unfold id_ok. apply N.ltb_lt. apply cap_rank_lt_nspans. unfold captured. rewrite Hk0. exact Hf. }
+    destruct (on_span_update_effect _ _ G Hok) as (st' & Ep & Eev & Ero & Ere & _ & Eget).
+    rewrite Ep. f_equal.
+    eapply (build_point_update f closed a a' k0 s0 g (set_payload G)); eauto.
+    unfold build_span, set_payload. cbn [fst snd sp_payload sp_id sp_parent_id sp_child_ids sp_event_ids sp_follows_from_ids].
+    rewrite Hfo, HG. reflexivity.
+  Qed.
+
+  Lemma build_follow closed a a' k0 s0 j0 :
+    nth_error (a_spans a) k0 = Some s0 -> f (as_meta s0) = true ->
+    a_spans a' = upd_span (a_spans a) k0 (as_follow j0) -> a_events a' = a_events a ->
+    on_follows_from (build f closed a) (cap_rank f (a_spans a) k0) (cap_rank f (a_spans a) j0)
+    = Done (build f closed a').
+  Proof.
+    intros Hk0 Hf Hsp Hev.
+    assert (Hok : id_ok (build f closed a) (cap_rank f (a_spans a) k0) = true).
+    { unfold id_ok. apply N.ltb_lt. apply cap_rank_lt_nspans. unfold captured. rewrite Hk0. exact Hf. }
+    destruct (on_follows_from_effect _ _ (cap_rank f (a_spans a) j0) Hok) as (st' & Ep & Eev & Ero & Ere & _ & Eget).
+    rewrite Ep. f_equal.
+    eapply (build_point_update f closed a a' k0 s0 (as_follow j0)
+              (fun r => add_follows r (cap_rank f (a_spans a) j0))); eauto.
+    - intros s. split; reflexivity.
+    - unfold build_span, add_follows, as_follow. cbn. rewrite map_app. reflexivity.
+  Qed.
+
+  Lemma build_close closed a k0 s0 :
+    nth_error (a_spans a) k0 = Some s0 -> f (as_meta s0) = true ->
+    on_span_update (build f closed a) (cap_rank f (a_spans a) k0) pl_close
+    = Done (build f (fun j => if Nat.eqb j k0 then true else closed j) a).
+  Proof.
+    intros Hk0 Hf.
+    assert (Hok : id_ok (build f closed a) (cap_rank f (a_spans a) k0) = true).
+    { unfold id_ok. apply N.ltb_lt. apply cap_rank_lt_nspans. unfold captured. rewrite Hk0. exact Hf. }
+    destruct (on_span_update_effect _ _ pl_close Hok) as (st' & Ep & Eev & Ero & Ere & _ & Eget).
+    rewrite Ep. f_equal. apply storage_ext; try assumption.
+    intros i. rewrite Eget, !build_get.
+    destruct (nth_error (caps f (a_spans a)) (N.to_nat i)) as [[k s]|] eqn:E; [|reflexivity].
+    cbn [option_map]. apply caps_nth_inv in E as (A & B & C). rewrite N2Nat.id in C. f_equal.
+    unfold build_span. cbn [fst snd]. destruct (Nat.eqb_spec k k0) as [->|Hne].
+    - rewrite C, N.eqb_refl. reflexivity.
+    - destruct (N.eqb_spec i (cap_rank f (a_spans a) k0)) as [Ei|_]; [|reflexivity].
+      exfalso. apply Hne. apply (cap_rank_inj f (a_spans a)); [| |congruence].
+      + unfold captured. rewrite A. exact B.
+      + unfold captured. rewrite Hk0. exact Hf.
+  Qed.
+
+  Lemma build_close_uncaptured closed a k0 :
+    captured f (a_spans a) k0 = false ->
+    build f (fun j => if Nat.eqb j k0 then true else closed j) a = build f closed a.
+  Proof.
+    intros H. apply build_closed_ext. intros k Hk. destruct (Nat.eqb_spec k k0); [congruence | reflexivity].
+  Qed.
+End BuildOps.
